@@ -378,8 +378,12 @@ _clean_doc = Contract(
            'inspect.getdoc returns): nothing stripped beyond that; empty when there is no docstring node',
     file='jedi/parser_utils.py', qualname='clean_scope_docstring',
     params={'scope_node': Obj('PNode')}, families=['PNode'], ret=STR,
-    ensures=['implies(scope_node.get_doc_node() is not None, '
+    ensures=['implies(scope_node.get_doc_node() is not None and '
+             'isinstance(safe_literal_eval(scope_node.get_doc_node().value), str), '
              'result == cleandoc(safe_literal_eval(scope_node.get_doc_node().value)))',
+             # a bytes literal is not documentation
+             'implies(scope_node.get_doc_node() is not None and '
+             'not isinstance(safe_literal_eval(scope_node.get_doc_node().value), str), result == "")',
              'implies(scope_node.get_doc_node() is None, result == "")'],
     witness={}, replay=_replay_clean_doc, concrete_only=True,
     concrete_ensures=['result == interpreter_doc'],
@@ -400,7 +404,8 @@ _stmt_doc = Contract(
              'implies(tree_node.type == "expr_stmt" and tree_node.parent.get_next_sibling() is not None '
              'and tree_node.parent.get_next_sibling().type == "simple_stmt" '
              'and tree_node.parent.get_next_sibling().children[0].type == "string", '
-             'result == cleandoc(safe_literal_eval(tree_node.parent.get_next_sibling().children[0].value)))'],
+             'result == cleandoc(safe_literal_eval(tree_node.parent.get_next_sibling().children[0].value)) '
+             'or not isinstance(safe_literal_eval(tree_node.parent.get_next_sibling().children[0].value), str))'],
 )
 
 _sig_index = Contract(
@@ -448,8 +453,8 @@ def register(reg):
         reg.families['CallDetails'].methods['calculate_index'] = FnSpec(
             'CallDetails.calculate_index', params=[('param_names', Seq(Obj('ParamName')))], ret=Opt(INT), pure=True,
             assumed=False, note='C11.calculate_index[n,m]')
-    reg.names['cleandoc'] = FnSpec('inspect.cleandoc', params=[('doc', STR)], ret=STR, pure=True, assumed=True)
-    reg.names['safe_literal_eval'] = FnSpec('safe_literal_eval', params=[('value', STR)], ret=STR, pure=True,
+    reg.names['cleandoc'] = FnSpec('inspect.cleandoc', params=[('doc', ANY)], ret=STR, pure=True, assumed=True)
+    reg.names['safe_literal_eval'] = FnSpec('safe_literal_eval', params=[('value', STR)], ret=ANY, pure=True,
                                             assumed=True, note='ast.literal_eval of the literal; "" for f-strings')
     reg.families['CallDetails'].methods['_list_arguments'] = FnSpec('CallDetails._list_arguments',
                                                                    impl=_list_arguments_impl, assumed=False)
